@@ -25,7 +25,7 @@ BAD_KEYS = {
     "identifier": ["1x", "a-b", "a.b", "+", "*"],
     "ipaddr-or-hostname": ["1x", "300.1.1.1", "a/b", "x!", "+", "*"],
 }
-SECTION_NAMES = ["n1", "n2", "N3", "alpha", "Beta", "Stra\u00dfe", "\u039f\u0394\u039f\u03a3", "/Dir/", "a>b", "Z\u00fcrich", "\u00c5rhus", "t1", "T2", "eps"]
+SECTION_NAMES = ["n1", "n2", "N3", "alpha", "Beta", "Stra\u00dfe", "STRASSE", "\u039f\u0394\u039f\u03a3", "/Dir/", "a>b", "Z\u00fcrich", "\u00c5rhus", "t1", "T2", "eps"]
 
 GOOD = {
     "string": ["v", "two words", "x=1", "(p)", "<q>", "# not a comment", "é", "col1\tcol2", "a \t b",
@@ -127,8 +127,11 @@ def gen_schema(rng, handlers=False, max_types=5, section_dts=("zcv.dt.wrap",),
     def effective_kt(t):
         return info[t["name"]]["kt"]
 
+    # a quarter of the schemas name their types so that case FOLDING (not lower-casing) would
+    # equate other spellings with them: 'ss1' ~ U+00DF '1', 's' ~ U+017F
+    stem = rng.choice(["t", "t", "t", "ss"])
     for i in range(ntypes):
-        t = {"name": "t%d" % (i + 1), "keytype": None, "datatype": None, "implements": None,
+        t = {"name": "%s%d" % (stem, i + 1), "keytype": None, "datatype": None, "implements": None,
              "extends": None, "items": []}
         base = None
         if ast["types"] and rng.random() < derive_bias:
@@ -350,6 +353,15 @@ def gen_items(rng, kt, names, attrs, avail_types, n, handlers, hcount, value_dts
             it["attribute"] = _fresh_attr(rng, attrs, "sec")
         items.append(it)
     return items, haswild
+
+
+def _fold_variants(types):
+    """Spellings that only case folding (not lower-casing) equates with a type name."""
+    out = []
+    for t in sorted(types):
+        if "ss" in t:
+            out += [t.replace("ss", "\u00df", 1), t.replace("s", "\u017f", 1), t.upper().replace("SS", "\u1e9e", 1)]
+    return [v for v in out if v.lower() not in types]
 
 
 def _fresh_name(rng, kt, names):
@@ -598,7 +610,7 @@ class TextGen:
         if self.p(0.02):
             blocks.append(["%s x" % rng.choice(BAD_KEYS[C.kt])])
         if self.p(0.03) and self.sm.types:
-            t = rng.choice(sorted(self.sm.types) + ["nosuchtype"] + sorted(self.sm.abstract))
+            t = rng.choice(sorted(self.sm.types) + ["nosuchtype"] + sorted(self.sm.abstract) + _fold_variants(self.sm.types))
             blocks.append(["<%s%s/>" % (t, rng.choice(["", " n1", " zz"]))])
         rng.shuffle(blocks)
         lines = []
@@ -617,7 +629,7 @@ class TextGen:
         rng = self.rng
         types = self.types_for(slot)
         if not types or self.p(0.04):
-            tname = rng.choice(sorted(self.sm.types) + sorted(self.sm.abstract) + ["nosuchtype"])
+            tname = rng.choice(sorted(self.sm.types) + sorted(self.sm.abstract) + ["nosuchtype"] + _fold_variants(self.sm.types))
         else:
             tname = rng.choice(types)
         if slot.wild:
